@@ -278,6 +278,7 @@ class Check:
                 kf = self._match_known(name, known)
                 if kf:
                     known_hits.append((name, kf))
+                    n_ob -= 1        # a listed known finding is reported on its own line, not counted among the obligations of the proof
                 else:
                     violations.append((name, model, ob, backend, reason))
             else:
